@@ -298,7 +298,7 @@ pub const RECURSIVE_SHORTHANDS: &[&str] = &[
 
 /// Programs whose scoped variables refer to each other, possibly in a cycle (directly, through
 /// lists, calls or inherited lookups): lazy evaluation has to report the cycle, not follow it.
-fn reference_cycles(t: &mut Tape) -> String {
+pub fn reference_cycles(t: &mut Tape) -> String {
     let names = ["a", "b", "c"];
     let mut text = String::new();
     for n in names {
